@@ -6,22 +6,27 @@ pub mod gen;
 pub mod c01;
 pub mod c02;
 pub mod hist;
+pub mod foreign;
+pub mod c03;
 pub mod c04;
 pub mod c05;
 pub mod c07;
 pub mod c09;
 pub mod c10;
+pub mod c11;
 pub mod c19;
 
 pub fn run(id: &str, tier: &str) -> i32 {
     match id {
         "C01" => c01::run(tier),
         "C02" => c02::run(tier),
+        "C03" => c03::run(tier),
         "C04" => c04::run(tier),
         "C05" => c05::run(tier),
         "C07" => c07::run(tier),
         "C09" => c09::run(tier),
         "C10" => c10::run(tier),
+        "C11" => c11::run(tier),
         "C19" => c19::run(tier),
         _ => {
             eprintln!("unknown property {id}");
@@ -43,11 +48,13 @@ pub fn replay(id: &str, path: &str) -> i32 {
     let msgs: Vec<String> = match id {
         "C01" => c01::replay(&case),
         "C02" => c02::replay(&case),
+        "C03" => c03::replay(&case),
         "C04" => c04::replay(&case),
         "C05" => c05::replay(&case),
         "C07" => c07::replay(&case),
         "C09" => c09::replay(&case),
         "C10" => c10::replay(&case),
+        "C11" => c11::replay(&case),
         "C19" => c19::replay(&case),
         _ => {
             eprintln!("no replay for {id}");
